@@ -163,7 +163,18 @@ class DiskCache:
         except ImportError:
             raise ImportError("diskcache is required for DiskCache. Install it with: pip install 'hypergraph[cache]'") from None
 
+        class _RawOnlyDisk(diskcache.Disk):
+            """DiskCache writes raw payload bytes and an ASCII digest only. A row in
+            pickle mode was not written by it: it is never unpickled (diskcache
+            would do so before any signature check) but read as a missing value."""
+
+            def fetch(self, mode: int, filename: Any, value: Any, read: bool) -> Any:
+                if mode == diskcache.core.MODE_PICKLE:
+                    return None
+                return super().fetch(mode, filename, value, read)
+
         expanded = os.path.expanduser(cache_dir)
+        kwargs.setdefault("disk", _RawOnlyDisk)
         self._cache = diskcache.Cache(expanded, **kwargs)
         self._hmac_key = _load_or_create_hmac_key(expanded)
 
